@@ -33,7 +33,7 @@ SynthCodes  == {0, OV_ENOTAUDIOc, OV_EBADPACKETc}
 \* a slip in bookkeeping the caller cannot see at once (sample_count, granulepos) shows up as a wrong count later.
 InitDec == [nh |-> 0, live |-> FALSE, inited |-> FALSE, initfailed |-> FALSE, B |-> <<0, 0>>, hs |-> 0, hsdirty |-> FALSE, m |-> DecRestart(<<0, 0>>, 0),
             mm |-> DecRestart(<<0, 0>>, 0), pure |-> FALSE,
-            prev |-> -1, prevclean |-> FALSE, lastk |-> -1, chunkclean |-> FALSE, gpforced |-> FALSE, resync |-> FALSE, cntok |-> FALSE]
+            prev |-> -1, prevclean |-> FALSE, lastk |-> -1, chunkclean |-> FALSE, gpforced |-> FALSE, resync |-> FALSE, cntok |-> FALSE, solid |-> FALSE]
 
 \* the buffer is allocated for full rate (pcm_storage = blocksizes[1] samples per channel) whatever the half-rate flag is or was:
 \* that, not the two-half ring of the current flag, is the bound that memory safety needs (the flag may be toggled in mid-stream)
@@ -67,7 +67,7 @@ ChkSynthInit(s, e) ==
   \* an initialisation that was refused (the codebooks of the set-up cannot be built) is refused again as long as no header has been submitted since
   (IF s.initfailed /\ e.ret = 0 THEN {"RefusedInitStaysRefused"} ELSE {})
 NxtSynthInit(s, e) == IF e.ret # 0 THEN [s EXCEPT !.initfailed = TRUE] ELSE [s EXCEPT !.inited = TRUE, !.hs = e.hsp, !.hsdirty = FALSE, !.m = Observed(e, e.hsp), !.mm = DecRestart(s.B, e.hsp), !.pure = (s.nh = 3),
-                                                     !.prev = -1, !.prevclean = FALSE, !.lastk = -1, !.chunkclean = FALSE, !.gpforced = FALSE, !.resync = FALSE, !.cntok = FALSE]
+                                                     !.prev = -1, !.prevclean = FALSE, !.lastk = -1, !.chunkclean = FALSE, !.gpforced = FALSE, !.resync = FALSE, !.cntok = FALSE, !.solid = FALSE]
 
 (* ---- audio packets ---- *)
 \* e.trk = TRUE for vorbis_synthesis_trackonly
@@ -100,7 +100,7 @@ NxtSynthesis(s, e, trk) ==
        IF trk THEN [s EXCEPT !.m = Observed(e, s.hs), !.mm = mm1, !.pure = p1, !.prev = -1, !.prevclean = FALSE, !.chunkclean = FALSE, !.lastk = -1, !.resync = FALSE, !.cntok = FALSE,
                              !.gpforced = (s.gpforced \/ e.gpf = 1)]    \* no audio was decoded: the overlap is stale
        ELSE [s EXCEPT !.m = Observed(e, s.hs), !.mm = mm1, !.pure = p1, !.gpforced = (s.gpforced \/ e.gpf = 1),
-                      !.cntok = s.resync,
+                      !.cntok = s.resync, !.solid = FALSE,
                       !.resync = (s.prev = e.k - 1 /\ s.prev >= 0 /\ s.prevclean /\ e.mut = 0 /\ ~s.hsdirty /\ e.W = e.cW /\ (s.resync \/ (e.gp # -1 /\ e.eos = 0))),
                       !.chunkclean = (s.prev = e.k - 1 /\ s.prev >= 0 /\ s.prevclean /\ e.mut = 0 /\ ~s.hsdirty /\ e.W = e.cW),
                       !.lastk = e.k, !.prev = e.k, !.prevclean = (e.mut = 0 /\ ~s.hsdirty /\ e.W = e.cW)]
@@ -131,8 +131,15 @@ ChkRestart(s, e) ==
   (IF e.ret # 0 THEN {"RestartSucceeds"} ELSE {}) \cup
   (IF e.avail # 0 THEN {"RestartDropsPending"} ELSE {})
 NxtRestart(s, e) == [s EXCEPT !.m = Observed(e, e.hsp), !.mm = [DecRestart(s.B, e.hsp) EXCEPT !.lW = e.dlW, !.W = e.dW], !.pure = (s.nh = 3), !.hs = e.hsp, !.hsdirty = FALSE,
-                             !.prev = -1, !.prevclean = FALSE, !.chunkclean = FALSE, !.lastk = -1, !.gpforced = FALSE, !.resync = FALSE, !.cntok = FALSE]
+                             !.prev = -1, !.prevclean = FALSE, !.chunkclean = FALSE, !.lastk = -1, !.gpforced = FALSE, !.resync = FALSE, !.cntok = FALSE, !.solid = FALSE]
 
+\* lapout as transcribed in Block.tla (DecLapout: swap of the halves, the move by block-size pair, the once-per-block flag `solid`): count and buffer
+\* indices after the call, for blocks that were decoded at the rate the decoder was set up for
+DriftLapOut(s, e) ==
+  IF s.nh = 3 /\ ~s.hsdirty /\ s.inited /\ s.lastk # -1
+  THEN LET r == DecLapout(s.B, s.m, s.solid) IN IF r.n = e.n /\ StateMatches(r.d, e) THEN {} ELSE {"LapOutDiffersFromTranscription"}
+  ELSE {}
+NxtLapOut(s, e) == [s EXCEPT !.m = IF s.inited THEN Observed(e, s.hs) ELSE s.m, !.mm = IF s.inited THEN Observed(e, s.hs) ELSE s.mm, !.solid = (s.inited /\ s.m.ret >= 0)]
 ChkLapOut(s, e) ==
   \* (after a half-rate toggle on a running decoder the buffer bookkeeping and the flag disagree until the next restart: the count is
   \*  then meaningless, possibly negative, which the caller sees as a failure; only indices inside the buffer are demanded)
